@@ -19,6 +19,8 @@ func main() {
 		err = cmdSeq(os.Args[2:])
 	case "conc":
 		err = cmdConc(os.Args[2:])
+	case "life":
+		err = cmdLife(os.Args[2:])
 	default:
 		err = fmt.Errorf("unknown command %s", os.Args[1])
 	}
